@@ -187,35 +187,45 @@ Box::Box(bool user_mem, int prefill) {
 
 void Box::install_callbacks() {
     Teakra::AHBMCallback cb;
-    cb.read8 = [this](u32 a) -> u8 {
+    auto charge = [this]() {
+        if (++ext_accesses > ext_budget)
+            throw VerifBudget{};
+    };
+    cb.read8 = [this, charge](u32 a) -> u8 {
+        charge();
         u8 v = (u8)ext.read(a, 8);
         if (log_ext)
             events.push_back(Event{Event::ExtRead, 8, a, v});
         return v;
     };
-    cb.read16 = [this](u32 a) -> u16 {
+    cb.read16 = [this, charge](u32 a) -> u16 {
+        charge();
         u16 v = (u16)ext.read(a, 16);
         if (log_ext)
             events.push_back(Event{Event::ExtRead, 16, a, v});
         return v;
     };
-    cb.read32 = [this](u32 a) -> u32 {
+    cb.read32 = [this, charge](u32 a) -> u32 {
+        charge();
         u32 v = ext.read(a, 32);
         if (log_ext)
             events.push_back(Event{Event::ExtRead, 32, a, v});
         return v;
     };
-    cb.write8 = [this](u32 a, u8 v) {
+    cb.write8 = [this, charge](u32 a, u8 v) {
+        charge();
         ext.write(a, 8, v);
         if (log_ext)
             events.push_back(Event{Event::ExtWrite, 8, a, v});
     };
-    cb.write16 = [this](u32 a, u16 v) {
+    cb.write16 = [this, charge](u32 a, u16 v) {
+        charge();
         ext.write(a, 16, v);
         if (log_ext)
             events.push_back(Event{Event::ExtWrite, 16, a, v});
     };
-    cb.write32 = [this](u32 a, u32 v) {
+    cb.write32 = [this, charge](u32 a, u32 v) {
+        charge();
         ext.write(a, 32, v);
         if (log_ext)
             events.push_back(Event{Event::ExtWrite, 32, a, v});
